@@ -304,6 +304,12 @@ def rule_CP(run: Run) -> RuleResult:
             if not good:
                 ok_ret = False
                 d_ret = f"a path returns {r.key()[:100]}"
+        if p.status == "ret" and any(e.kind == "op" and e.op == "evaluate" and not e.failed and isinstance(e.target, Child) and e.target.path == "evaluatable" for e in p.events) \
+                and not any(e.kind == "call" and e.text == "run" and _is_new(e.target, "CacheSetRequest") for e in p.events):
+            # whatever was computed is handed to the cache: a value returned without the store request is computed again next time
+            ok_store = False
+            d_store = (f"a returning path evaluates the inner object and hands the value back without issuing the CacheSetRequest "
+                       f"(conditions {[c[0][:50] for c in p.conds][-3:]}): such values are never stored, every evaluation runs the body again")
         if p.status == "ret" and not any(e.kind == "call" and e.text == "run" and (_is_new(e.target, "CacheGetRequest") and not e.failed) for e in p.events):
             # computed path: the evaluate must not have failed
             if any(e.kind == "op" and e.op == "evaluate" and e.failed for e in p.events):
@@ -440,7 +446,11 @@ def rule_CP(run: Run) -> RuleResult:
             is_cache = _Fr.atoms(p.conds).get(f"call:isinstance({fp_[0]},class<labrea.cache.Cache>)")
             r_ = p.ret
             if isinstance(r_, New) and r_.cls.name == "Cached":
-                if is_cache is not False or r_.attrs["evaluatable"].key() != fp_[0] or fp_[1] not in r_.attrs["cache"].key():
+                ck_ = r_.attrs["cache"].key()
+                at_ = _Fr.atoms(p.conds)
+                # (the cache given, or — on a path that found none given — a fresh MemoryCache: ``cache or MemoryCache()`` spelled as a test)
+                cache_ok = fp_[1] in ck_ or (ck_.startswith("new:MemoryCache") and (at_.get(fp_[1]) is False or at_.get(f"cmp:Is({fp_[1]},Const(None))") is True))
+                if is_cache is not False or r_.attrs["evaluatable"].key() != fp_[0] or not cache_ok:
                     ok_c, why_c = False, f"direct form builds {r_.key()[:80]}"
             elif isinstance(r_, Fn) and isinstance(r_.node, ast.Lambda):
                 lam = r_.node
@@ -482,12 +492,16 @@ def rule_MC(run: Run) -> RuleResult:
         def K(e):
             return astu.inline_helpers(astu.expand_locals(e, amap), rs)
 
+        def is_store(e) -> bool:
+            """``self._cache`` itself or a local bound once to it (``store = self._cache``)."""
+            return astu.is_self_attr(astu.expand_locals(e, amap) if isinstance(e, ast.Name) else e, "_cache")
+
         for n in astu.walk_no_nested(fn):
-            if isinstance(n, ast.Subscript) and astu.is_self_attr(n.value, "_cache"):
+            if isinstance(n, ast.Subscript) and is_store(n.value):
                 keys.append(K(n.slice))
-            if isinstance(n, ast.Compare) and len(n.ops) == 1 and isinstance(n.ops[0], (ast.In, ast.NotIn)) and astu.is_self_attr(n.comparators[0], "_cache"):
+            if isinstance(n, ast.Compare) and len(n.ops) == 1 and isinstance(n.ops[0], (ast.In, ast.NotIn)) and is_store(n.comparators[0]):
                 keys.append(K(n.left))
-            if isinstance(n, ast.Call) and isinstance(n.func, ast.Attribute) and astu.is_self_attr(n.func.value, "_cache") and n.func.attr in ("get", "pop", "setdefault", "__getitem__", "__contains__", "__setitem__") and n.args:
+            if isinstance(n, ast.Call) and isinstance(n.func, ast.Attribute) and is_store(n.func.value) and n.func.attr in ("get", "pop", "setdefault", "__getitem__", "__contains__", "__setitem__") and n.args:
                 keys.append(K(n.args[0]))
         want = f"{params[0]}.fingerprint({params[1]})" if len(params) >= 2 else "?"
         got = sorted({ast.unparse(k) for k in keys})
